@@ -2138,9 +2138,10 @@ fn run(v: &Value) -> Result<String, String> {
             //   cap 2, outbound capacity 2       -> 2          (4 requests: 2 run, 2 refused; a cap >= the outbound capacity is still a cap)
             //   cap 3, outbound capacity 1       -> 3          (5 requests: 3 run, 2 refused)
             type Build = fn(WebSocketServer) -> WebSocketServer;
-            let corners: [(&str, Build, u64, usize, usize); 4] = [
+            let corners: [(&str, Build, u64, usize, usize); 5] = [
                 ("default configuration (documented default cap 16)", |s| s, 20, 16, 4),
                 ("with_offreader_limit(0) (unlimited) and with_outbound_capacity(2)", |s| s.with_offreader_limit(0).with_outbound_capacity(2), 5, 5, 0),
+                ("with_offreader_limit(0) (unlimited), 20 concurrent requests", |s| s.with_offreader_limit(0), 20, 20, 0),
                 ("with_offreader_limit(2) and with_outbound_capacity(2)", |s| s.with_offreader_limit(2).with_outbound_capacity(2), 4, 2, 2),
                 ("with_outbound_capacity(1) then with_offreader_limit(3)", |s| s.with_outbound_capacity(1).with_offreader_limit(3), 5, 3, 2),
             ];
